@@ -438,7 +438,7 @@ class VtermEngine(Engine):
     prop = P
     name = "vterm"
     level = "exploration"
-    tiers = {"quick": 30000, "thorough": 1500000}
+    tiers = {"quick": 100000, "thorough": 5000000}
     rule = (
         "seeded program output (1-25 pieces: printable runs long enough to wrap, CR/LF/BS, CUP/HVP/CUU/CUD/CUF/CUB/CHA/VPA, "
         "EL/ED all modes, ICH/DCH/ECH, IL/DL, DECSTBM, IND/RI/NEL, SGR colours and styles, DSR/CPR/DA queries; outside the "
